@@ -13,7 +13,11 @@ PROP = dict(
          "0.5 and its predecessor, half-integers, 2^53 and neighbours, ±2^63 and neighbours, 2^64, ±MAX, values whose "
          "products overflow or underflow) plus ±inf and the hardware NaN (computed at run time) plus seeded random finite "
          "patterns (uniform bits / moderate exponents / integers near the i64 limits); comparisons: pairs x 6 operators "
-         "in var/var, var/literal (*Imm) and literal/literal form; arithmetic + - * / ^ in var/var, var/literal, "
+         "in var/var, var/literal (*Imm) and literal/literal form, each with the RESULT DESTINATION as a further dimension "
+         "(printed directly, stored into a new local, assigned to an existing variable, `if` condition, call argument — "
+         "at top level and inside a function — and returned from a function; one seeded destination per (pair, shape), "
+         "all ten for equal operands incl. -0.0/+0.0 and NaN/NaN); arithmetic results likewise go to a new local, "
+         "println, an existing variable, a call argument, a return value or a function local; arithmetic + - * / ^ in var/var, var/literal, "
          "literal/literal (optimizer fold) and compound-assignment form incl. zero divisors of both signs and NaN-producing "
          "powers; CHAINS v op a op b [op c] with literal operands (32 designed rounding-sensitive triples: 2^53 +/- 1 ties, "
          "1.0 with sub-ulp increments, large+large-large, MAX*2*0.5, subnormal*0.5*2, 1/3/3, zero divisors; plus 260 "
